@@ -33,7 +33,7 @@ STATE_MEASURE = "(method, order vs length class, operation kinds before the judg
 PROBES = [
     "node_exact", "between_nodes", "first_interval", "last_interval", "outside_refused", "interp_after_inplace_frame_change", "interp_after_inplace_form_change",
     "interp_after_setting_change", "interp_after_pickle", "interp_after_copy", "interp_next_to_suspended_iteration", "polynomial_reproduced", "too_short_table_refused", "node_exact_to_rounding_linear", "converted_copy_taken",
-    "cache_dropped", "other_ephemeris_used_in_the_same_process", "interp_after_other_ephemeris", "column_extracted_and_changed", "interp_after_column_changed", "interpolated_point_changed_by_caller", "interp_after_result_changed_by_caller", "frame_change_failed_on_first_point", "interp_after_failed_frame_change", "other_spelling_of_method_refused",
+    "cache_dropped", "other_ephemeris_used_in_the_same_process", "interp_after_other_ephemeris", "column_extracted_and_changed", "interp_after_column_changed", "interpolated_point_changed_by_caller", "interp_after_result_changed_by_caller", "frame_change_failed_on_first_point", "interp_after_failed_frame_change", "other_spelling_of_method_refused", "interp_class_used_directly",
 ]
 REAL_VS_STUB = "real: beyond.orbits.ephem.Ephem, beyond.utils.interp (Interp / DatedInterp), StateVector frame / form conversions, pickle; stub: none; model: a fresh Ephem rebuilt from the current points on a pristine node, the stored points themselves (node exactness), the generating polynomial"
 ASSUMPTIONS = [
@@ -108,6 +108,9 @@ def gen_plan(rng, tier, i):
     if child.random() < 0.2:
         # other spellings of the method names (an OEM header says "LINEAR" / "Lagrange"), set after or before the first use
         ops.insert(child.randint(0, len(ops)), {"op": "set_method", "method": child.choice(["Linear", "LINEAR", "Lagrange", "LAGRANGE"])})
+    if child.random() < 0.2:
+        # the interpolator class used directly on numpy arrays (Interp(xs, ys, method, order)), two interpolators on one time grid
+        ops.insert(child.randint(0, len(ops)), {"op": "direct_interp", "seed": child.randrange(1 << 30)})
     if child.random() < 0.25:
         # the caller extracts a column (the example of the class docstring) and works on it in place
         ops.insert(child.randint(0, len(ops)), {"op": "column_scribble", "col": child.choice([0, 1, 2, 3, 5, "0:3", "all"]), "factor": child.choice([1e-3, 0.0, -1.0])})
@@ -526,6 +529,69 @@ class World:
         self.ctx.probe("other_ephemeris_used_in_the_same_process")
         self.ctx.fault("other_object_in_process")
         self.since.add("decoy")
+
+    def op_direct_interp(self, op, where):
+        """Interp(xs, ys, method, order) on the caller's own float arrays: positions and velocities interpolated by two interpolators
+        built on the same abscissa array.  Exact at the nodes, refused outside, equal to an interpolator built on copies of the
+        arrays in a pristine process; the caller's arrays are left as they were."""
+        ctx = self.ctx
+        spec = self.spec
+        t = np.array(table_dates_s(spec), dtype=np.float64) + float(spec["epoch"][0]) * 86400.0  # an abscissa far from zero
+        vals = np.array([poly_eval(dict(spec, degree=min(spec.get("degree", 1), 3)), x - t[0]) for x in t], dtype=np.float64)
+        method = self.spec["method"]
+        order = min(int(self.spec["order"]), len(t))
+        if len(t) < (2 if method == "linear" else order) or order < 2:
+            return
+        xs = t.copy()
+        pos, vel = vals[:, :3].copy(), vals[:, 3:].copy()
+        rs = np.random.RandomState(op["seed"])
+        queries = [float(t[k_]) for k_ in rs.randint(0, len(t), size=3)] + [float(t[k_] + (t[k_ + 1] - t[k_]) * rs.uniform(0.1, 0.9)) for k_ in rs.randint(0, len(t) - 1, size=3)]
+        outside = [float(t[0] - 1.0), float(t[-1] + 1.0)]
+
+        def run(node, xs_, pos_, vel_):
+            I = node.mod("beyond.utils.interp").Interp
+            f1 = I(xs_, pos_, method, order)
+            f2 = I(xs_, vel_, method, order)  # a second interpolator on the same grid array
+            out = []
+            for q in queries:
+                out.append((np.array(f1(q), dtype=float), np.array(f2(q), dtype=float)))
+            ref = []
+            for q in outside:
+                for f in (f1, f2):
+                    try:
+                        f(q)
+                        ref.append("value")
+                    except ValueError:
+                        ref.append("refused")
+                    except Exception as e:  # noqa
+                        ref.append(type(e).__name__)
+            return out, ref
+
+        try:
+            with self.node:
+                got, refused = run(self.node, xs, pos, vel)
+            with self.pristine:
+                want, _ = run(self.pristine, t.copy(), vals[:, :3].copy(), vals[:, 3:].copy())
+        except Exception as e:  # noqa
+            ctx.violate("interpolation", {"kind": "unexpected_exception", "exc": type(e).__name__, "op": "direct"}, f"{where}: Interp(xs, ys, {method!r}, {order}) on float arrays raised {type(e).__name__}: {e}")
+            return
+        ctx.checks += 1
+        ctx.probe("interp_class_used_directly")
+        if not (np.array_equal(xs, t) and np.array_equal(pos, vals[:, :3]) and np.array_equal(vel, vals[:, 3:])):
+            ctx.violate("history-independence", {"kind": "caller_arrays_modified", "size": "large"}, f"{where}: building / using Interp on the caller's arrays changed them (abscissas moved by {float(np.max(np.abs(xs - t))):.3e})")
+            return
+        if set(refused) != {"refused"}:
+            ctx.violate("refused-outside", {"kind": "extrapolated", "method": method, "where": "direct", "after": "-", "short": False}, f"{where}: Interp queried one unit outside its abscissas: {refused}")
+            return
+        for k_, ((gp, gv), (wp, wv)) in enumerate(zip(got, want)):
+            if gp.tobytes() != wp.tobytes() or gv.tobytes() != wv.tobytes():
+                ctx.violate("history-independence", {"kind": "second_interpolator_on_the_same_grid_differs", "size": "large"}, f"{where}: query {k_} ({'node' if k_ < 3 else 'between'}): two interpolators built on one abscissa array give {gp} / {gv}, interpolators built on copies of the arrays in a pristine process give {wp} / {wv}")
+                return
+        for k_ in range(3):
+            idx = int(np.argmin(np.abs(t - queries[k_])))
+            if method == "lagrange" and (got[k_][0].tobytes() != vals[idx, :3].tobytes() or got[k_][1].tobytes() != vals[idx, 3:].tobytes()):
+                ctx.violate("node-exactness", {"kind": "node_not_exact", "method": method, "where": "direct", "after": "-", "short": False, "size": "large"}, f"{where}: Interp at its own abscissa {idx} gives {got[k_][0]}, the ordinate is {vals[idx, :3]}")
+                return
 
     def op_column_scribble(self, op, where):
         """cols = ephem[:, k] (numpy-style column selection, class docstring), then the caller changes what it was given in place."""
